@@ -363,6 +363,12 @@ func (m *monBase) Verify(sig hotstuff.QuorumSignature, message []byte) error {
 	if m.layer == "outer" && m.nd.w.async {
 		m.nd.w.parkIfBackground(m.nd)
 	}
+	if m.layer == "inner" && m.nd.w.async && m.nd.w.plan.knob("parkInner", 0) == 1 {
+		// a second seam below the cache: the verification is "in flight" (the cache has been consulted and
+		// missed) while other verifications of the same replica run
+		m.nd.w.probe("async-verification-parked-below-cache")
+		m.nd.w.parkIfBackground(m.nd)
+	}
 	err := m.inner.Verify(sig, message)
 	if m.layer == "outer" {
 		for _, f := range m.nd.w.hooks.onVerify {
